@@ -50,7 +50,7 @@ class C02(GenCheck):
             fmt = rng.choice(["x", "x", "x"] + INTFMTS)
             decls.append((f"v{k}", rng.choice(["local", "array"]), fmt))
             if fmt == "x":
-                values[f"v{k}"] = rng.choice([0, 1, 29000, 150000, 275000, 100000, 99999, 12345678, 50000, 7, rng.randint(0, 10 ** 7), rng.randint(0, 10 ** 9)])
+                values[f"v{k}"] = rng.choice([0, 1, 29000, 150000, 275000, 100000, 99999, 12345678, 50000, 7, 4295067296, 3000000000, 2 ** 31, 2 ** 32 + 100000, rng.randint(0, 10 ** 7), rng.randint(0, 10 ** 9), rng.randint(0, 10 ** 11)])
             else:
                 hi = min((1 << 8 * dsl.fmt_size(fmt) - (1 if dsl.fmt_signed(fmt) else 0)) - 1, 10 ** 6)
                 values[f"v{k}"] = rng.choice([0, 1, 2, 3, 10, 100, rng.randint(0, hi), rng.randint(0, min(hi, 200))])
@@ -67,6 +67,22 @@ class C02(GenCheck):
         if e[0] == "c":
             e = ["+", ["v", names[0]], e]
         case["expr"] = e
+        if rng.random() < 0.3:
+            # a comparison mixing integer and fixed-point operands; the constant is placed next to the other side's value
+            a = self.rand_expr(rng, names, case, rng.choice([0, 0, 1]))
+            if a[0] == "c":
+                a = ["v", names[0]]
+            if rng.random() < 0.5:
+                b = self.rand_expr(rng, names, case, rng.choice([0, 0, 1]))
+            else:
+                q = self.meaning(case, a)[0]
+                b = ["c", rng.choice([math.floor(q), math.floor(q) + 1, float(round(float(q), 5)), float(round(float(q) + rng.choice([-0.00001, 0.00001, 0.5]), 5))])]
+            if rng.random() < 0.2:
+                a, b = b, a
+            if a[0] == "c" and b[0] == "c":
+                a = ["v", names[0]]
+            case["cmp"] = [rng.choice(["==", "!=", "<", "<=", ">", ">="]), a, b]
+            case["decls"][-1] = ("d", "local", "B")
         return case
 
     def gen_cases(self):
@@ -79,7 +95,10 @@ class C02(GenCheck):
 
     def stmts(self, case):
         st = [["set", ["r", "x", no], ["c", v]] for no, v in sorted(case["reginit"].items())]
-        st.append(["set", ["v", case["dest"]], case["expr"]])
+        if "cmp" in case:
+            st.append(["if", case["cmp"], [["set", ["v", "d"], ["c", 1]]], [["set", ["v", "d"], ["c", 2]]]])
+        else:
+            st.append(["set", ["v", case["dest"]], case["expr"]])
         return st
 
     def prepare(self, cases):
@@ -191,13 +210,23 @@ class C02(GenCheck):
         """what Constant.__init__ derives for a float constant"""
         return round(float(v) * FB)
 
+    MIRROR = {"<": ">", ">": "<", "<=": ">=", ">=": "<=", "==": "==", "!=": "!="}
+    CMPN = {"==": "CEq", "!=": "CNe", "<": "CLt", "<=": "CLe", ">": "CGt", ">=": "CGe"}
+
     def model_term(self, case):
         if case["_built"].error is not None or case["_run"] is None or case["_run"][0] != [1]:
             return None
+        if "cmp" in case:
+            op, a, b = case["cmp"]
+            if a[0] == "c":
+                op, a, b = self.MIRROR[op], b, a       # Python evaluates const < expr as expr > const
+            return f"(run_cmp {self.CMPN[op]} {self.cf(case, a)} {self.cf(case, b)})"
         dfmt = self.fmt_of(case, case["dest"])
         return f"(run {self.cf(case, case['expr'])} {cbool(dfmt == 'x')} {cnat(dsl.fmt_size(dfmt))})"
 
     def model_value(self, case, o):
+        if "cmp" in case:
+            return 1 if o["dest"] == 1 else 0
         dfmt = self.fmt_of(case, case["dest"])
         return o["dest"] % (1 << 8 * dsl.fmt_size(dfmt))
 
@@ -220,6 +249,8 @@ class C02(GenCheck):
             if o.code == 6:
                 return True if ("no value" in o.what or "not enough registers" in o.what or "ZeroDivisionError" in o.what) else f"generator refused a well-typed statement: {o.what}"
             return o.what
+        if "cmp" in case:
+            return self.holds_cmp(case, o)
         q, f, ok, neg = self.meaning(case, case["expr"])
         case["_negdiv"] = neg
         dfmt = self.fmt_of(case, case["dest"])
@@ -243,6 +274,27 @@ class C02(GenCheck):
         for n, v in o["others"].items():
             if v != case["values"][n]:
                 return f"variable {n} changed from {case['values'][n]} to {v}"
+        return True
+
+    def holds_cmp(self, case, o):
+        op, a, b = case["cmp"]
+        qa, fa, oka, na = self.meaning(case, a)
+        qb, fb, okb, nb = self.meaning(case, b)
+        case["_negdiv"] = na or nb
+        if not (oka and okb and self.fits(case, a, 64) and self.fits(case, b, 64)):
+            return True
+        narrow = any(l[0] == "v" and dsl.fmt_size(self.fmt_of(case, l[1])) <= 4 for l in exprs.leaves(a) + exprs.leaves(b))
+        lim = 1 << (31 if narrow else 63)
+        if not all(-lim <= v * FB < lim for v in (qa, qb)):
+            return True
+        if qa < 0 or qb < 0:
+            signed = any((l[0] == "v" and dsl.fmt_signed(self.fmt_of(case, l[1]))) or l[0] == "r" or (l[0] == "c" and l[1] < 0) for l in exprs.leaves(a) + exprs.leaves(b))
+            if not signed:
+                return True
+        t = {"==": qa == qb, "!=": qa != qb, "<": qa < qb, "<=": qa <= qb, ">": qa > qb, ">=": qa >= qb}[op]
+        if o["dest"] != (1 if t else 2):
+            return (f"with {a} {op} {b}: took the {'body' if o['dest'] == 1 else 'Else' if o['dest'] == 2 else 'no'} branch, exact values {qa} {op} {qb} "
+                    f"is {t}; {case['values']} {case['reginit']} decls={case['decls']}")
         return True
 
     def nontrivial(self, case, o):
